@@ -135,6 +135,14 @@ def varint_rule(db, chk):
                     if l in seen:
                         continue
                     seen.add(l)
+                    for c2 in f.calls():
+                        if c2.dest and c2.dest[0] == l:
+                            if c2.is_(r"::(checked|wrapping|saturating|overflowing|unchecked)_add$") and any("p" not in o and o.get("v") == 1 for o in c2.args):
+                                plus1 = True
+                            if c2.is_(r"::(checked|wrapping|saturating|overflowing|unchecked)_add$|Try>::branch$|::from$|::into$|::unwrap\w*$|::expect$|::ok_or\w*$"):
+                                for o in c2.args:
+                                    if "p" in o and isinstance(o["p"][0], int):
+                                        work.append(o["p"][0])
                     for b2, s2, pl2, rv2, ln2, mc2 in f.assigns():
                         if pl2 and pl2[0] == l:
                             if rv2[0] == "bin" and rv2[1] in ("Add", "AddWithOverflow", "AddUnchecked") and any("p" not in o and o.get("v") == 1 for o in (rv2[2], rv2[3])):
